@@ -23,13 +23,35 @@ func checkC09(c *Ctx) error {
 	r.Assumptions = []string{"fixed-array index literals are not rewritten (documented rule that they be compile-time constants); a variant rejected only with T0028 would be excused", "rewrites never move expressions that can panic or have side effects"}
 	n := c.N(30, 1200)
 	gates := gatedFeatures(c)
-	core.ParDo(n, 5, func(i int) {
+	// deterministic bases first: the matrix programs (sub-word operators and casts used inside
+	// expressions, constants used in unfolded positions and then as indices), each rewritten
+	// with several independent random choices
+	var mbases []matrixProg
+	for _, mp := range matrixPrograms() {
+		switch mp.name {
+		case "ops-i8", "ops-i16", "ops-u8", "ops-u16", "ops-i32", "casts-from-i8", "casts-from-u16", "casts-from-i32", "const-flow", "params":
+			mbases = append(mbases, mp)
+		}
+	}
+	mreps := c.N(3, 8)
+	nm := len(mbases) * mreps
+	core.ParDo(nm+n, 5, func(i int) {
 		rng := r.Rng(i)
 		wasm := !c.Quick() && i%3 == 0
-		p := gen.Generate(rng, &gen.Config{Off: gates, MainLen: 8 + rng.IntN(12), Wasm: wasm})
-		rw := &gen.Rewriter{Rng: rng, P: 35}
+		var p *gen.Program
+		id := fmt.Sprintf("gen:%d:%d", c.Env.Seed, i-nm)
+		prob := 35
+		if i < nm {
+			mp := mbases[i/mreps]
+			p = mp.p
+			id = fmt.Sprintf("matrix:%s:%d", mp.name, i%mreps)
+			wasm = wasm && mp.wasmOK
+			prob = 50
+		} else {
+			p = gen.Generate(rng, &gen.Config{Off: gates, MainLen: 8 + rng.IntN(12), Wasm: wasm})
+		}
+		rw := &gen.Rewriter{Rng: rng, P: prob}
 		v := rw.Rewrite(p)
-		id := fmt.Sprintf("gen:%d:%d", c.Env.Seed, i)
 		ps, vs := p.Source(), v.Source()
 		total := 0
 		for _, k := range rw.Applied {
@@ -117,7 +139,7 @@ func checkC09(c *Ctx) error {
 			}
 			r.Count("agreeing_pairs."+string(tg), 1)
 		}
-		if i < 2 {
+		if i >= nm && i < nm+2 {
 			r.Sample(map[string]interface{}{"rewrites": rw.Applied, "base": ps, "variant": vs})
 		}
 	})
